@@ -19,6 +19,11 @@
 //	  leaves): every single leaf unavailable; Seek relative to the end, and Seek into a later
 //	  child + ReadAll, must report the store's error (case ids "undeclared:...").
 //
+//	hand-built files with empty children (hand_test.go: shapes such as [P,e,P], [e,P], [P,[P,e]],
+//	  [R,r,R]; 28 | 60 shapes): every single non-root block unavailable, the empty ones included;
+//	  reads with buffer sizes {1,3,64} and AsBytes deliver the bytes before the missing block's
+//	  position and then the store's error (case ids "hand:<shape>,missing=<pos>,buf=<n>|asbytes").
+//
 // Oracle: spans / shard membership / hash paths from vp's protowire walker.
 package c12
 
@@ -109,6 +114,7 @@ func TestBounded(t *testing.T) {
 		}
 	}
 	undeclaredSizes(t, r)
+	handBuilt(t, r)
 	for _, layout := range []string{"balanced", "trickle"} {
 		for _, n := range []int{3, 8} {
 			want := vp.Content(n*4-1, int64(7000+n))
